@@ -89,6 +89,25 @@ def executeAndCommit (p : Persist) (prog : Prog) (root : Nat) : Outcome × Persi
   | .ok _ notes => (o, commitBlock p (s.cache ++ s.ov) root notes)
   | .fail _ => (o, commitBlock p [] root [])
 
+/-- what `ExecuteBlock` hands back to its caller: a VALUE — the write set of the block's own overlay, the notifications and the
+state root.  (Assumption, tied structurally by `Gen.PreExec.overlayProviders`: the overlay behind it is a fresh allocation that
+nobody else gets hold of; in particular it is not recycled while the result is alive.) -/
+structure ExecResult where
+  outcome : Outcome
+  writes : MemDB
+  notes : List Nat
+  root : Nat
+
+/-- phase 1 of the two-phase commit used by the consensus services: `ExecuteBlock` -/
+def executeBlock (p : Persist) (prog : Prog) (root : Nat) : ExecResult :=
+  let (o, s) := interp p prog ⟨[], [], []⟩
+  match o with
+  | .ok _ notes => ⟨o, s.cache ++ s.ov, notes, root⟩
+  | .fail _ => ⟨o, [], [], root⟩
+
+/-- phase 2: `SubmitBlock(block, result)` persists the result it is given -/
+def submitBlock (p : Persist) (r : ExecResult) : Persist := commitBlock p r.writes r.root r.notes
+
 inductive Kind | invoke | deploy | eip155 | evmCall | other
   deriving Repr, DecidableEq
 
